@@ -155,6 +155,8 @@ Section Step.
     | KVarSet =>
         if name_ok (tv t) then let (s1, v) := pop1 s in XOk (set_vars s1 (assign (tv t) v (vars s1)))
         else XErr ENotCore
+    | KString | KCharacter | KCompString =>
+        match string_value t with Some v => XOk (push (VStr v) s) | None => XErr ENotCore end
     | _ => XErr ENotCore
     end.
 
